@@ -251,6 +251,31 @@ func (f *fnCtx) expr(e ast.Expr) string {
 		trFail("index %s", f.src(e))
 	case *ast.CallExpr:
 		return f.call(x, false)
+	case *ast.CompositeLit:
+		// a byte-slice literal
+		if f.kindOf(e).k == kBytes {
+			var es []string
+			for _, el := range x.Elts {
+				if _, isKV := el.(*ast.KeyValueExpr); isKV {
+					trFail("keyed byte-slice literal")
+				}
+				es = append(es, f.asNatByte(el))
+			}
+			return "([" + strings.Join(es, ", ") + "] : List Nat)"
+		}
+	case *ast.SliceExpr:
+		// bz[lo:hi] of a byte slice: panics when the bounds are not lo <= hi <= len
+		if f.kindOf(x.X).k == kBytes && !x.Slice3 {
+			xs := f.atom(f.expr(x.X))
+			lo, hi := "(0 : Int)", "(("+xs+".length : Nat) : Int)"
+			if x.Low != nil {
+				lo = f.atom(f.asInt(x.Low))
+			}
+			if x.High != nil {
+				hi = f.atom(f.asInt(x.High))
+			}
+			return f.partial(fmt.Sprintf("Go.sliceBytes %s %s %s", xs, lo, hi))
+		}
 	}
 	trFail("expression %s (%T)", f.src(e), e)
 	return ""
@@ -637,6 +662,19 @@ func (f *fnCtx) call(c *ast.CallExpr, stmt bool) string {
 					p.segs = append(p.segs, "len")
 					return f.pathValue(p, nil, lty{k: kInt, bits: 64, lean: "Int"}, c)
 				}
+			case "append":
+				// byte slices (value semantics: the result is a new list; see the aliasing note in the file header)
+				if f.kindOf(c.Args[0]).k == kBytes {
+					base := f.atom(f.expr(c.Args[0]))
+					if c.Ellipsis.IsValid() && len(c.Args) == 2 {
+						return "(" + base + " ++ " + f.atom(f.expr(c.Args[1])) + ")"
+					}
+					var es []string
+					for _, a := range c.Args[1:] {
+						es = append(es, f.asNatByte(a))
+					}
+					return "(" + base + " ++ [" + strings.Join(es, ", ") + "])"
+				}
 			case "new":
 				if isNewBigInt(c) {
 					return "(0 : Int)"
@@ -804,6 +842,15 @@ var effectful = map[string]bool{"SendCoinsFromAccountToModule": true, "SendCoins
 	"SetCode": true, "AddLog": true, "Suicide": true, "ConsumeGas": true, "RefundGas": true, "SetParams": true, "SetBaseFee": true}
 
 func (f *fnCtx) nameOfRootGo(o types.Object) string { return o.Name() }
+
+// asNatByte: a byte-typed expression as a Nat
+func (f *fnCtx) asNatByte(e ast.Expr) string {
+	k := f.kindOf(e)
+	if k.k != kNat {
+		trFail("byte element %s", f.src(e))
+	}
+	return f.atom(f.expr(e))
+}
 
 // intLocalsIn: the integer variables of the function that occur in an expression the translator does not interpret (an
 // event built in place with its attributes), in source order
